@@ -1,9 +1,15 @@
-(* C16 -- layout cost.  Only the ACCOUNTING identities are theorems (engine skeleton, every algorithm): why a memo bounds
-   the number of evaluations.  The numeric bound of the property (64 x node count; no growth with chain depth) is a fact
-   about the query sequences of the real flex/grid/block algorithms interacting with the 9 lossy cache slots; it is
-   explored on the implementation, not proved -- and it does not hold on the pinned tree (known findings). *)
+(* C16 -- layout cost.  Level `other`: NO theorem of this file states a count or a bound.  The three statements below are the
+   accounting identities a bound would be built from (engine skeleton, every algorithm): a hit evaluates nothing; an evaluated
+   query is answered from the cache afterwards; in the EXACT-KEY memo a size entry stays retrievable whatever is stored later
+   (some entry answers it: the conclusion is `exists o2`, not "the same o"; a final-layout entry IS displaced by any later
+   PerformLayout store).  There is no evaluation counter in the model and no theorem "each (node, input) is evaluated at most
+   once" (audit, wave 5c: earlier comments suggested one).  The numeric bound of the property (64 x node count; no growth with
+   chain depth) is a fact about the query sequences of the real flex/grid/block algorithms interacting with the 9 lossy cache
+   slots -- NOT the exact-key memo these identities are about; it is explored on the implementation, not proved, and it does not
+   hold on the pinned tree (known finding chain-measure-growth). *)
 From Coq Require Import List Bool Arith.
-From TV Require Import Model.Engine Proofs.EngineCount.
+From Coq Require Import NArith.
+From TV Require Import Model.Engine Proofs.EngineCount Model.EngineToy Proofs.EngineToyProofs.
 Import ListNotations.
 
 (* a cache hit evaluates nothing: the subtree (caches, layouts) is returned as it is *)
@@ -25,13 +31,38 @@ Theorem C16_evaluated_then_hit :
       cget In Out mode in_eqb (cache_of S In Out Lay t') i = Some o.
 Proof. intros until algo. intros Hr. intros. eapply evaluated_then_hit; eauto. Qed.
 
-(* with an exact memo a size query stays answered whatever is stored later (no clobbering) *)
+(* with an exact memo a size query stays answered (by SOME entry) whatever is stored later: size entries are never displaced.
+   ComputeSize only; a final-layout entry is displaced by any later PerformLayout store *)
 Theorem C16_exact_memo_no_clobber :
   forall (In Out : Type) (mode : In -> RunMode) (in_eqb : In -> In -> bool),
     (forall a, in_eqb a a = true) ->
     forall c i o j o', mode i = ComputeSize -> cget In Out mode in_eqb c i = Some o ->
       exists o2, cget In Out mode in_eqb (cstore In Out mode c j o') i = Some o2.
 Proof. intros In Out mode in_eqb Hr. intros. eapply compute_size_hit_persists; eauto. Qed.
+
+(* computed instance of the three identities on a 6-node toy tree: the first pass succeeds (output 15) and fills the root cache;
+   the same query is then a hit that returns the tree unchanged; two size queries and a final-layout query with another input
+   later, the first size query is still answered from the cache (57) *)
+Definition c16_k : sk TS :=
+  SNode TS (0%N, false)
+    [SNode TS (1%N, false) [SNode TS (2%N, false) [SNode TS (3%N, false) []]; SNode TS (4%N, false) []]; SNode TS (5%N, false) []].
+Example C16_accounting_example :
+  (forall a, t_in_eqb a a = true) /\
+  exists o t1,
+    t_memo 8 (fresh TS TIn TOut TLay 0%N c16_k) (PerformLayout, 5%N) = Some (o, t1) /\ o = 15%N /\
+    cget TIn TOut t_mode t_in_eqb (cache_of TS TIn TOut TLay t1) (PerformLayout, 5%N) = Some o /\
+    t_memo 8 t1 (PerformLayout, 5%N) = Some (o, t1) /\
+    exists o2 t2 o3 t3 o4 t4,
+      t_memo 8 t1 (ComputeSize, 1%N) = Some (o2, t2) /\ t_memo 8 t2 (ComputeSize, 2%N) = Some (o3, t3) /\
+      t_memo 8 t3 (PerformLayout, 6%N) = Some (o4, t4) /\
+      cget TIn TOut t_mode t_in_eqb (cache_of TS TIn TOut TLay t4) (ComputeSize, 1%N) = Some o2 /\ o2 = 57%N.
+Proof.
+  split; [exact t_in_eqb_refl|].
+  eexists. eexists. split; [vm_compute; reflexivity|]. split; [reflexivity|]. split; [vm_compute; reflexivity|].
+  split; [vm_compute; reflexivity|].
+  do 6 eexists. split; [vm_compute; reflexivity|]. split; [vm_compute; reflexivity|]. split; [vm_compute; reflexivity|].
+  split; vm_compute; reflexivity.
+Qed.
 
 Print Assumptions C16_hit_is_free.
 Print Assumptions C16_evaluated_then_hit.
